@@ -91,6 +91,10 @@ def save_xye(
     to_save = np.c_[da.coords[coord].values, da.values, np.sqrt(da.variances)]
     if header is GenerateHeader:
         header = _generate_xye_header(da, coord)
+    else:
+        # np.savetxt only comments lines separated by '\n'. A carriage return is
+        # a line break for readers, too, so it must not hide uncommented text.
+        header = header.replace('\r\n', '\n').replace('\r', '\n')
 
     get_logger().info(
         "Saving data with unit %s and coordinate '%s' to XYE file %s",
